@@ -140,7 +140,7 @@ def run_case(case, ctx):
         # a reader that serialises its positioned reads)
         mf = monitors.MonFile(out)
         mf.seek_delay = 0.0005
-        with SgzReader(mf) as r, SgzReader(path) as s:
+        with monitors.YieldInjector(seed=len(case['id'])) as yi_, SgzReader(mf) as r, SgzReader(path) as s:
             if r.tracecount != s.tracecount or r.structured != s.structured:
                 bad.append({'sig': 'reblock:tracecount-or-structured-differs', 'detail': '%s/%s vs %s/%s' % (r.tracecount, r.structured, s.tracecount, s.structured)})
             if r.get_source_data_hash() != s.get_source_data_hash():
